@@ -480,6 +480,24 @@ func (s *Sim) CancelWrite(idx int) {
 	}
 }
 
+// WaitWrite blocks until write idx has completed (ok or error) or the timeout passes.
+func (s *Sim) WaitWrite(idx int, timeout time.Duration) (done bool, errText string) {
+	deadline := time.Now().Add(timeout)
+	for {
+		s.mu.Lock()
+		w := s.writes[idx]
+		d, e := w.Done, w.Err
+		s.mu.Unlock()
+		if d {
+			return true, e
+		}
+		if time.Now().After(deadline) {
+			return false, ""
+		}
+		time.Sleep(100 * time.Microsecond)
+	}
+}
+
 func (s *Sim) Writes() []Write {
 	s.mu.Lock()
 	defer s.mu.Unlock()
@@ -734,8 +752,9 @@ func (s *Sim) ReadKeys(node string) (idx []int, term int64, ok bool) {
 	}
 	term = lc.Term()
 	ch := make(chan []string, 1)
+	failed := make(chan struct{}, 1)
 	go func() {
-		var keys []string
+		keys := []string{}
 		done := make(chan struct{})
 		lc.List(context.Background(), &proto.ListRequest{StartInclusive: "w/", EndExclusive: "w/~"},
 			concurrent.NewStreamOnce(func(k string) error { keys = append(keys, k); return nil },
@@ -746,13 +765,16 @@ func (s *Sim) ReadKeys(node string) (idx []int, term int64, ok bool) {
 					close(done)
 				}))
 		<-done
+		if keys == nil {
+			failed <- struct{}{} // the request was refused (e.g. the node is no leader any more): no result
+			return
+		}
 		ch <- keys
 	}()
 	select {
+	case <-failed:
+		return nil, 0, false
 	case keys := <-ch:
-		if keys == nil {
-			return []int{}, term, true
-		}
 		for _, k := range keys {
 			var i int
 			if _, err := fmt.Sscanf(k, "w/%d", &i); err == nil {
